@@ -240,7 +240,7 @@ def lookup_case(src, mode, classes, index_of, hier="@", extra=None):
     ld = src.loader(mode)
     fs, pk = src.model_sets(ld)
     impl = run_lookups(ld, classes)
-    cache = {index_of[c]: p.as_posix() for c, p in ld._type_to_template_lookup_cache.items()}
+    cache = {index_of.get(c, -1): ("<None>" if p is None else p.as_posix()) for c, p in ld._type_to_template_lookup_cache.items()}
     lc = LookupCase()
     lc.sources, lc.mode, lc.classes = src, mode, classes
     lc.user = set(src.user) if ld._fsloader is not None else set()
@@ -831,7 +831,10 @@ def run(ctx: common.Ctx):
     # ================================================================================================================
     # G. the environment
     # ================================================================================================================
-    run_env_stream(ctx, ask, root_ns, lctx, corpus)
+    for lang in ("c", "cpp", "py", "html"):
+        l_ctx = LanguageContextBuilder(include_experimental_languages=True).set_target_language(lang).create()
+        l_ns = nunavut.build_namespace_tree(types, str(ns_dir), str(ctx.scratch / "out"), l_ctx)
+        run_env_stream(ctx, ask, l_ns, l_ctx, corpus)
     phase("G")
 
 
@@ -878,6 +881,8 @@ def run_env_stream(ctx, ask, root_ns, lctx, corpus):
     from nunavut.jinja.loaders import DSDLTemplateLoader
     rng = ctx.rng
     ref_env, rec = reference_environment(root_ns)
+    lang = lctx.get_target_language().name
+    ref_builder_env = CodeGenEnvironmentBuilder(DSDLTemplateLoader(package_name_for_templates="nunavut.lang.c"), lctx).create()
     reserved = set(CodeGenEnvironment.RESERVED_GLOBAL_NAMESPACES) | set(CodeGenEnvironment.RESERVED_GLOBAL_NAMES)
     lang_globals = list(lctx.get_target_language().get_globals().keys())
     pre_f = [n for p, k, n in rec if p == "pre" and k == "f"]
@@ -888,7 +893,7 @@ def run_env_stream(ctx, ask, root_ns, lctx, corpus):
     jf = [n for n in ref_env.filters if n not in added_f]
     jt = [n for n in ref_env.tests if n not in added_t]
     jg = [n for n in ref_env.globals if n not in reserved and n not in lang_globals]
-    ctx.extra["environment"] = {"jinja_filters": len(jf), "jinja_tests": len(jt), "jinja_globals": sorted(jg), "language_globals": len(lang_globals),
+    ctx.extra.setdefault("environment", {})[lctx.get_target_language().name] = {"jinja_filters": len(jf), "jinja_tests": len(jt), "jinja_globals": sorted(jg), "language_globals": len(lang_globals),
                                 "pre_filters": len(pre_f), "pre_tests": len(pre_t), "post_additions": len(post),
                                 "target": lctx.get_target_language().name}
     cfg_fields = " ".join([enc_list(jf), enc_list(jt), enc_list(jg), enc_list(lang_globals), enc_list(pre_f), enc_list(pre_t)])
@@ -963,13 +968,27 @@ def run_env_stream(ctx, ask, root_ns, lctx, corpus):
     for c in corpus:
         if c.get("stream") == "env":
             cases.append((c.get("entry", "generator"), bool(c.get("allow", False)), c.get("globals", []), c.get("filters", []), c.get("tests", [])))
-    # every single built-in / reserved name once per collection (cheap entry point), then random mixtures
-    singles = [("g", n) for n in sorted(reserved) + jg + lang_globals[:3]] + [("f", n) for n in rng.sample(sorted(builtin_names["f"]), 12 if ctx.quick else 60)] \
-        + [("t", n) for n in rng.sample(sorted(builtin_names["t"]), 12 if ctx.quick else 60)]
-    for kind, n in singles:
-        cases.append(("builder" if kind != "g" and n in (added_f | added_t) - set(pre_f) - set(pre_t) else rng.choice(["generator", "builder"]), False,
-                      [n] if kind == "g" else [], [n] if kind == "f" else [], [n] if kind == "t" else []))
-    for _ in range(120 if ctx.quick else 1500):
+    # EVERY name the finished environment holds (globals, filters, tests of a real environment built without additions: Jinja
+    # defaults, reserved namespaces, now_utc, language-support globals/filters/tests incl. ln.<lang>.<x>, instance tests, the
+    # generator's own) as an additional item of its own collection through both entry points, as an item of the two other
+    # collections through the generator, and - filters and tests - once more with the conventional prefix in front
+    # (quick tier: the cross-collection and prefixed variants for every third name, rotating with the seed; globals always all)
+    rot = rng.randrange(3)
+    for kind in "gft":
+        for i, n in enumerate(sorted(builtin_names[kind])):
+            one = lambda k, x: ([x] if k == "g" else [], [x] if k == "f" else [], [x] if k == "t" else [])  # noqa: E731
+            cases.append(("generator", False) + one(kind, n))
+            cases.append(("builder", False) + one(kind, n))
+            if ctx.quick and kind != "g" and (i + rot) % 3:
+                continue
+            for other in "gft".replace(kind, ""):
+                cases.append(("generator", False) + one(other, n))
+            if kind == "f":
+                cases.append(("generator", False, [], ["filter_" + n], []))
+            if kind == "t":
+                cases.append(("generator", False, [], [], ["is_" + n]))
+    ctx.count("env-exhaustive-names-" + lang, sum(len(v) for v in builtin_names.values()))
+    for _ in range(40 if ctx.quick else 400):
         entry = rng.choice(["generator", "builder", "builder"])
         allow = entry == "builder" and rng.random() < 0.4
         ug = list(dict.fromkeys(pick("g") for _ in range(rng.choice([0, 0, 1, 1, 2, 3]))))
@@ -985,7 +1004,7 @@ def run_env_stream(ctx, ask, root_ns, lctx, corpus):
         lines.append(f"env new {1 if allow else 0} {cfg_fields} {pf} {enc_list(ug)} {enc_list(uf)} {enc_list(ut)}")
         collides = any(n in builtin_names["g"] for n in ug) or any(strip_prefix(n) in builtin_names["f"] for n in uf) \
             or any(strip_prefix(n) in builtin_names["t"] for n in ut)
-        ctx.case(("env", entry, allow, tuple(ug), tuple(uf), tuple(ut)), collides or any("_" in n for n in uf + ut))
+        ctx.case(("env", lang, entry, allow, tuple(ug), tuple(uf), tuple(ut)), collides or any("_" in n for n in uf + ut))
         ctx.count("env-entry=" + entry + (",allow" if allow else ""))
         if res[0] == "err":
             impls.append(("err", res[1], res[2]))
@@ -994,8 +1013,19 @@ def run_env_stream(ctx, ask, root_ns, lctx, corpus):
             env = res[1]
             impls.append(("ok", owners(env.filters, mf), owners(env.tests, mt), owners(env.globals, mg)))
             ctx.count("env-constructed")
-            # property: nothing the environment defines without the additions now carries a user value (allow flag off)
+            # property: every name the environment defines without the additions keeps its built-in value (allow flag off):
+            # (a) compared with the value in the reference environment, (b) it is not the user's object
             if not allow:
+                ref = ref_env if entry == "generator" else ref_builder_env
+                for cname, coll, rcoll in (("filters", env.filters, ref.filters), ("tests", env.tests, ref.tests), ("globals", env.globals, ref.globals)):
+                    for k, r in rcoll.items():
+                        v = coll.get(k, None)
+                        if isinstance(v, Marker) or k not in coll or type(v) is not type(r) or \
+                                (isinstance(r, (str, int, float, bool, tuple, type)) and v != r):
+                            if not isinstance(v, Marker):  # Marker cases are reported with a precise key below
+                                ctx.fail({"kind": "builtin-value-changed", "collection": cname},
+                                         f"{cname}[{k!r}] is {v!r} after adding {ug + uf + ut}, {r!r} without additions",
+                                         {"stream": "env", "language": lang, "entry": entry, "allow": allow, "globals": ug, "filters": uf, "tests": ut, "name": k})
                 for kind, coll, markers in (("f", env.filters, mf), ("t", env.tests, mt), ("g", env.globals, mg)):
                     for k, v in coll.items():
                         if not isinstance(v, Marker):
@@ -1004,10 +1034,10 @@ def run_env_stream(ctx, ask, root_ns, lctx, corpus):
                             (k in (set(jf) | set(pre_f) if kind == "f" else set(jt) | set(pre_t) if kind == "t" else builtin_names["g"]))
                         if was_builtin:
                             what = ("reserved" if k in reserved else "jinja-default" if k in (jg if kind == "g" else jf if kind == "f" else jt)
-                                    else "nunavut")
+                                    else "language-global" if kind == "g" and k in lang_globals else "nunavut")
                             ctx.fail({"kind": "silent-replacement", "collection": {"f": "filters", "t": "tests", "g": "globals"}[kind], "of": what},
                                      f"additional {'global' if kind == 'g' else 'filter' if kind == 'f' else 'test'} {k!r} replaced the built-in of that name without an error",
-                                     {"stream": "env", "entry": entry, "allow": allow, "globals": ug, "filters": uf, "tests": ut, "replaced": k})
+                                     {"stream": "env", "language": lang, "entry": entry, "allow": allow, "globals": ug, "filters": uf, "tests": ut, "replaced": k})
                 # observation (not a replacement of a built-in): a user global the language globals overwrote
                 for n in ug:
                     if n in lang_globals and not isinstance(env.globals.get(n), Marker):
@@ -1077,7 +1107,7 @@ def replay(ctx, path):
             (ns_dir / "E.1.0.dsdl").write_text("@sealed\n")
             from nunavut.lang import LanguageContextBuilder
             from nunavut.jinja import DSDLCodeGenerator
-            lctx = LanguageContextBuilder().set_target_language("c").create()
+            lctx = LanguageContextBuilder(include_experimental_languages=True).set_target_language(rp.get("language", "c")).create()
             root_ns = nunavut.build_namespace_tree(pydsdl.read_namespace(str(ns_dir), []), str(ns_dir), str(ctx.scratch / "out"), lctx)
             ref = DSDLCodeGenerator(root_ns)._env
             mk = lambda names: {n: Marker(i) for i, n in enumerate(names)} or None  # noqa: E731
@@ -1088,8 +1118,9 @@ def replay(ctx, path):
                 print(json.dumps({"raised": str(e)}))
                 return 0
             bad = [k for coll, rc in ((env.filters, ref.filters), (env.tests, ref.tests), (env.globals, ref.globals))
-                   for k, v in coll.items() if isinstance(v, Marker) and k in rc]
-            print(json.dumps({"constructed": True, "built_in_names_now_bound_to_user_values": bad}))
+                   for k, r in rc.items()
+                   if isinstance(coll.get(k), Marker) or type(coll.get(k)) is not type(r) or (isinstance(r, (str, int, float, bool, tuple, type)) and coll.get(k) != r)]
+            print(json.dumps({"constructed": True, "built_in_names_that_lost_their_built_in_value": bad}))
             return 1 if bad else 0
         print("nothing to replay (no failing input of a replayable stream in the file)")
         return 1
